@@ -181,6 +181,16 @@ mod verif_harness {
         json!({"signature": "unparsed", "message": msg})
     }
 
+    /// serde compatibility as *requested* by the driver (falls back to what was compiled in): a
+    /// feature table that switches serde-compat on behind the user's back must not go unnoticed
+    pub fn serde_requested() -> bool {
+        match std::env::var("VERIF_E1_SERDE_COMPAT").as_deref() {
+            Ok("0") => false,
+            Ok("1") => true,
+            _ => cfg!(feature = "serde-compat"),
+        }
+    }
+
     pub fn features() -> Value {
         json!({"serde_compat": cfg!(feature = "serde-compat"), "no_serde_warnings": cfg!(feature = "no-serde-warnings")})
     }
